@@ -222,7 +222,12 @@ pub const SHARDS: usize = 16;
 
 pub fn run(ctx: &Ctx) -> Report {
     if ctx.shard.is_none() {
-        return run_sharded(ctx, SHARDS, SHARDS);
+        // RCE_FUZZ_ONLY=1: only the campaign (used when measuring what the fuzzer finds alone)
+        let mut rep = if std::env::var_os("RCE_FUZZ_ONLY").is_some() { Report::new() } else { run_sharded(ctx, SHARDS, SHARDS) };
+        if ctx.tier == Tier::Thorough {
+            super::fuzzsearch::campaign(ctx, "C12", &mut rep);
+        }
+        return rep;
     }
     let mut rep = Report::new();
     let corp = corpus::load(&ctx.verif);
